@@ -11,18 +11,23 @@
 
    Transport parameters exist in two transcriptions (the tie feeds the one the tree contains): [OParams], the function
    up to the repair of finding C06-F1, needs the guard on its values; [OParamsP], the repaired function, needs it only
-   when it restores remembered parameters ([PTicket]); with 0-RTT accepted ([PAccepted]) [freach] puts NO condition
-   on the values -- the function refuses a lowered value itself (accepted_0rtt_parameters_never_lower) -- so every
-   theorem over [freach] below holds on the repaired tree without a transport-parameter assumption.  Handshake
-   parameters with 0-RTT not accepted ([PRejected]) may lower the remembered limits: [preach] and
-   latest_limits_respected. *)
+   when it restores remembered parameters ([PTicket]).  With 0-RTT accepted ([PAccepted]) [freach] puts NO condition
+   on the values -- the function refuses a lowered value itself (accepted_0rtt_parameters_never_lower).  With 0-RTT
+   not accepted ([PRejected]) the values may be LOWER than those held; the only conditions are that they are varints
+   and that every stream existing at that moment was opened locally (the function runs while EncryptedExtensions is
+   handled, before any peer frame can be read; the tie checks it on every scenario).  So on the repaired tree every
+   theorem over [freach] below holds without an assumption on the transport parameters' values. *)
 From Coq Require Import ZArith List Bool.
 From AQ Require Import lib.Base model.RangeSet model.StreamSend model.FlowSend proofs.StreamSendP proofs.FlowSendP proofs.FlowSendP2 proofs.FlowSendP3.
 
-(* at every moment highest_offset(s) <= max_stream_data_remote(s), and that limit is covered by what the
-   peer sent: the transport parameter for the stream's kind, or a MAX_STREAM_DATA frame for the stream *)
+(* at every moment highest_offset(s) <= max_stream_data_remote(s); for a stream that is not held back by the
+   stream-count limit that limit is covered by what the peer sent: the transport parameter IN FORCE for the stream's
+   kind, or a MAX_STREAM_DATA frame for the stream; a stream that is held back has sent nothing (its limit is
+   replaced when _unblock_streams releases it) *)
 Theorem stream_within_limit : forall c gm t, freach c gm -> In t (c_streams c) ->
-  0 <= s_highest (t_send t) <= t_msdr t /\ t_msdr t <= granted c gm (t_id t).
+  0 <= s_highest (t_send t) <= t_msdr t /\
+  (t_blocked t = false -> t_msdr t <= granted c gm (t_id t)) /\
+  (t_blocked t = true -> s_highest (t_send t) = 0).
 Proof. exact stream_within_limit_l. Qed.
 Print Assumptions stream_within_limit.
 
@@ -33,15 +38,16 @@ Proof. exact connection_within_limit_l. Qed.
 Print Assumptions connection_within_limit.
 
 (* credit accounting, in EVERY state (reachable or not, guarded or not): `used` moves exactly as the sum of
-   the highest offsets moves ... *)
-Theorem retransmit_free : forall c op,
+   the highest offsets moves, in every operation but the one that forgets (repaired parameters, 0-RTT not accepted:
+   counter and highest offsets all restart from 0, rejected_0rtt_forgets) ... *)
+Theorem retransmit_free : forall c op, forgetting op = false ->
   c_used (snd (fstep c op)) - c_used c = sum_high (c_streams (snd (fstep c op))) - sum_high (c_streams c).
 Proof. exact used_tracks_highest. Qed.
 Print Assumptions retransmit_free.
 
-(* ... it changes in no operation other than a _write_stream_frame call, by the rise of that stream's
+(* ... it changes in no such operation other than a _write_stream_frame call, by the rise of that stream's
    highest_offset (so a frame that re-sends lost bytes below highest_offset costs nothing) *)
-Theorem retransmit_free_only_get : forall c op, c_used (snd (fstep c op)) <> c_used c ->
+Theorem retransmit_free_only_get : forall c op, forgetting op = false -> c_used (snd (fstep c op)) <> c_used c ->
   exists sid ms t, op = OGet sid ms /\ find_strm sid (c_streams c) = Some t /\
     c_used (snd (fstep c op)) = c_used c + (s_highest (snd (get_frame (t_send t) ms (Some (max_offset c t)))) - s_highest (t_send t)).
 Proof. exact used_changes_only_in_get. Qed.
@@ -199,37 +205,48 @@ Theorem accepted_0rtt_parameters_never_lower : forall c md bl br un sb su,
 Proof. exact accepted_never_lowers_l. Qed.
 Print Assumptions accepted_0rtt_parameters_never_lower.
 
-(* 0-RTT not accepted: the handshake parameters replace the remembered ones, LOWER values included ([preach] = [freach]
-   plus [OParamsP PRejected] with varint values, processed while every stream is locally opened).  Every
-   _write_stream_frame call made afterwards -- in any reachable state -- is for a stream inside the stream-count
-   limit in force, and its max_offset is within the stream's limit, which the peer granted under the parameters in
-   force (or by MAX_STREAM_DATA), and within the connection credit; a frame that carries data ends at or below
-   max_offset.  (A bare FIN and RESET_STREAM carry highest_offset, which still counts discarded 0-RTT bytes: see
-   docs/C06.md, "what the repair leaves".) *)
+(* 0-RTT not accepted, ANY state and ANY values: the six limits become exactly the received values (absent = 0); every
+   stream is held back with highest_offset 0, the credit counter is 0, and no _write_stream_frame call is made for
+   any stream until _unblock_streams releases it under the new limits *)
+Theorem rejected_0rtt_forgets : forall c md bl br un sb su,
+  let r := fstep c (OParamsP PRejected md bl br un sb su) in
+  fst r = FOk /\
+  c_max_data (snd r) = orz md 0 /\ c_msd_bl (snd r) = orz bl 0 /\ c_msd_br (snd r) = orz br 0 /\
+  c_msd_uni (snd r) = orz un 0 /\ c_ms_bidi (snd r) = orz sb 0 /\ c_ms_uni (snd r) = orz su 0 /\
+  c_used (snd r) = 0 /\
+  map t_id (c_streams (snd r)) = map t_id (c_streams c) /\
+  (forall t, In t (c_streams (snd r)) -> t_blocked t = true /\ s_highest (t_send t) = 0) /\
+  (forall sid ms, silent (fst (fstep (snd r) (OGet sid ms)))).
+Proof. exact rejected_forgets_l. Qed.
+Print Assumptions rejected_0rtt_forgets.
+
+(* after the handshake parameters are processed -- LOWERED ones included -- no STREAM frame exceeds the limits in
+   force: every _write_stream_frame call made in a reachable state is for a stream inside the stream-count limit in
+   force; its max_offset is within the stream's limit, which the peer granted under the parameters in force (or by
+   MAX_STREAM_DATA), and within the connection credit, where the counter is the sum of the highest offsets and stays
+   within MAX_DATA; a frame that carries data ends at or below max_offset.  [reach_upto_forget]: the sender's
+   history is legitimate in the sense of C10, up to a highest_offset that was reset by the forgetting. *)
 Theorem latest_limits_respected : forall c gm sid ms mo o c' t,
-  preach c gm -> find_strm sid (c_streams c) = Some t ->
+  freach c gm -> find_strm sid (c_streams c) = Some t ->
   fstep c (OGet sid ms) = (FGet mo o, c') ->
   mo <= t_msdr t /\ t_msdr t <= granted c gm sid /\
   mo <= s_highest (t_send t) + c_max_data c - c_used c /\
+  c_used c = sum_high (c_streams c) /\ c_used c' = sum_high (c_streams c') /\ c_used c' <= c_max_data c' /\
   (is_local c sid = true -> sid / 4 < ms_for c sid) /\
-  (forall g off data fin, reach (t_send t) g -> o = SFrame off data fin -> data <> nil -> off + Zlen data <= mo).
+  (forall g off data fin, reach_upto_forget (t_send t) g -> o = SFrame off data fin -> data <> nil -> off + Zlen data <= mo).
 Proof. exact latest_limits_respected_l. Qed.
 Print Assumptions latest_limits_respected.
 
-(* [freach] is contained in [preach] *)
-Theorem freach_in_preach : forall c gm, freach c gm -> preach c gm.
-Proof. exact freach_preach. Qed.
-Print Assumptions freach_in_preach.
-
-(* the scenario of finding C06-F1 under the repaired function (hypotheses above are satisfiable): remembered limit
-   100, 20 bytes sent in 0-RTT, 0-RTT not accepted, the handshake grants 50: the stream is released with limit 50, the
-   lost 20 bytes and 60 new ones are cut into ONE frame that stops at 50, the next call yields nothing; with 0-RTT
-   accepted the same parameters are refused with PROTOCOL_VIOLATION *)
+(* the scenario of finding C06-F1 under the repaired function (the hypotheses above are satisfiable by a history that
+   lowers the limits): remembered limit 100, 20 bytes sent in 0-RTT, 0-RTT not accepted, the handshake grants 50: the
+   stream is released with limit 50 and highest_offset 0; the lost 20 bytes and 60 new ones are cut into ONE frame that
+   stops at 50 and is charged 50; the next call yields nothing; with 0-RTT accepted the same parameters are refused
+   with PROTOCOL_VIOLATION *)
 Theorem repaired_parameters_witness :
   let c := frun (conn_init true) ops_f1_repaired in
-  guards2 (conn_init true) ops_f1_repaired /\
-  (exists t, find_strm 0 (c_streams c) = Some t /\ t_blocked t = false /\ t_msdr t = 50 /\ s_highest (t_send t) = 20) /\
-  (exists c1, fstep c (OGet 0 1000) = (FGet 50 (SFrame 0 (zeros 50) false), c1) /\
+  guards (conn_init true) ops_f1_repaired /\
+  (exists t, find_strm 0 (c_streams c) = Some t /\ t_blocked t = false /\ t_msdr t = 50 /\ s_highest (t_send t) = 0) /\ c_used c = 0 /\
+  (exists c1, fstep c (OGet 0 1000) = (FGet 50 (SFrame 0 (zeros 50) false), c1) /\ c_used c1 = 50 /\
               fst (fstep c1 (OGet 0 1000)) = FGet 50 SNone) /\
   fst (fstep (frun (conn_init true) (firstn 3 ops_f1_repaired))
              (OParamsP PAccepted (Some 1000) (Some 50) (Some 50) (Some 50) (Some 4) (Some 4))) = FQErr PROTOCOL_VIOLATION.
